@@ -15,6 +15,39 @@ I64MAX  == B!Sub(B!Pow2(63), B!FromInt(1))
 I64MIN  == B!Neg(B!Pow2(63))
 U64MAX  == B!Sub(B!Pow2(64), B!FromInt(1))
 
+-----------------------------------------------------------------------------
+(* time scales: every constant is DERIVED from calendar dates and the documented second counts, *)
+(* not transcribed from the Rust tables (C05: "duplicated constants")                           *)
+Cal == INSTANCE Calendar
+Sec(n)    == B!MulInt(B!Pow10(9), n)                 \* n seconds, |n| <= 200000
+Msec(n)   == B!MulInt(B!Pow10(6), n)
+DaysNs(n) == B!Mul(B!FromInt(n), Ur[7])              \* n days
+
+RefR == [ts \in 0..8 |->
+          CASE ts = 1           -> B!Neg(Msec(32184))                                   \* TT - TAI = 32.184 s
+            [] ts \in {5, 8}    -> B!Add(DaysNs(Cal!N(1980, 1, 6)), Sec(19))             \* GPST, QZSST
+            [] ts = 6           -> B!Add(DaysNs(Cal!N(1999, 8, 22)), Sec(19))            \* GST
+            [] ts = 7           -> B!Add(DaysNs(Cal!N(2006, 1, 1)), Sec(33))             \* BDT
+            [] OTHER            -> B!Zero]
+(* J2000 = 2000-01-01 12:00:00: zero of ET and TDB, in the scale itself *)
+J2000Ns == B!Add(DaysNs(Cal!N(2000, 1, 1)), Sec(43200))
+
+(* the IERS record: TAI-UTC became 10 s on 1972-01-01 and grew by one second on each of these dates *)
+LeapDates == << <<1972, 1>>, <<1972, 7>>, <<1973, 1>>, <<1974, 1>>, <<1975, 1>>, <<1976, 1>>, <<1977, 1>>,
+                <<1978, 1>>, <<1979, 1>>, <<1980, 1>>, <<1981, 7>>, <<1982, 7>>, <<1983, 7>>, <<1985, 7>>,
+                <<1988, 1>>, <<1990, 1>>, <<1991, 1>>, <<1992, 7>>, <<1993, 7>>, <<1994, 7>>, <<1996, 1>>,
+                <<1997, 7>>, <<1999, 1>>, <<2006, 1>>, <<2009, 1>>, <<2012, 7>>, <<2015, 7>>, <<2017, 1>> >>
+LeapR == [i \in 1..Len(LeapDates) |-> <<DaysNs(Cal!N(LeapDates[i][1], LeapDates[i][2], 1)), Sec(9 + i)>>]
+
+GregDayR == [ts \in 0..8 |->
+              CASE ts \in {5, 8} -> Cal!N(1980, 1, 6) [] ts = 6 -> Cal!N(1999, 8, 22) [] ts = 7 -> Cal!N(2006, 1, 1)
+                [] ts \in {2, 3} -> Cal!N(2000, 1, 1) [] OTHER -> 0]
+GregTodR == [ts \in 0..8 |-> IF ts \in {2, 3} THEN Sec(43200) ELSE B!Zero]
+
+(* a logged IEEE-754 double {"k":"fin","neg":..,"m":[limbs of the odd mantissa],"e":exponent}: value = +/- m * 2^e *)
+F64IsInt(x) == x.k = "fin" /\ (x.e >= 0 \/ x.m = <<>>)
+F64Int(x)   == B!Mk(x.neg, B!MulMag(x.m, B!Pow2Mag(IF x.e >= 0 THEN x.e ELSE 0)))
+
 (* a logged magnitude (JSON array of limbs) as a carrier value *)
 Mg(m) == [neg |-> FALSE, m |-> m]
 (* a logged signed integer {"neg":..,"m":[..]} is already a carrier value *)
